@@ -109,7 +109,7 @@ fn equivalent(c: &mut Case<'_>) -> CaseResult {
     // the rewrite itself must be meaning-preserving for the independent reader (harness self-check)
     match xmlcanon::parse(&doc2) {
         Ok(r2) if xmlcanon::canon(&r2) == xmlcanon::canon(&b.root) => {}
-        other => return Err(crate::engine::Stop::Fail { sig: "harness-panic:rewrite-not-equivalent".into(), msg: format!("{class}: {other:?}\n{doc2}") }),
+        other => return Err(crate::engine::Stop::Fail { sig: "harness-error:rewrite-not-equivalent".into(), msg: format!("{class}: {other:?}\n{doc2}") }),
     }
     c.label(format!("rewrite:{class}"));
     if doc2 != b.doc {
@@ -387,4 +387,24 @@ pub fn run(r: &mut Runner) {
     r.search("roundtrip", r.scale(60_000, 2_000_000), 1536, roundtrip);
     r.search("equivalent-rewrite", r.scale(60_000, 2_000_000), 1536, equivalent);
     r.search("mutation-retraction", r.scale(80_000, 3_000_000), 1536, mutation);
+    // coverage-guided stage (thorough tier): arbitrary bytes into every decoder, the same retraction oracle in-target
+    if !r.quick() || r.replay.is_some() {
+        let mut seeds = Vec::new();
+        for (i, (_, _, codec)) in codecs().iter().enumerate() {
+            for k in 0..2u64 {
+                let enc = r.seed_case("xml-seeds", (i as u64) * 2 + k, 512, |case| {
+                    let mut g = GenCx::new(&mut case.t, Purpose::Internal);
+                    (codec.encode)(&mut g)
+                });
+                if let Ok((_, bytes)) = enc {
+                    let mut s = vec![(i >> 8) as u8, (i & 0xff) as u8];
+                    s.extend_from_slice(&bytes);
+                    if s.len() <= 4096 {
+                        seeds.push(s);
+                    }
+                }
+            }
+        }
+        r.fuzz("xml_doc", r.fuzz_runs(1_500_000), 4096, &seeds);
+    }
 }
